@@ -439,29 +439,39 @@ Definition prefix_region (sp : uspell) (u : aunit) : nat :=
   | _, _ => 0
   end.
 
+(* region of declaration number i of the unit, with its attribute / DIMENSION statements *)
+Definition decl_here (sp : uspell) (u : aunit) (i : nat) (d : adecl) : nat :=
+  let dsp := nth_or_last (us_decls sp) i plain_dspell in
+  let stmt := nth i (us_stmt sp) false in
+  let dimstmt := nth i (us_dimstmt sp) false && has_dims d in
+  let rname := match au_result u with Some r => r | None => au_name u end in
+  let declares_result :=
+    match au_kind u, au_rettype u with
+    | UFunction, None => existsb (fun e => seqb (e_name e) rname) (d_entities d)
+    | _, _ => false
+    end in
+  if declares_result && ((stmt && (d_parameter d || d_optional d
+                                   || match d_intent d with Some _ => true | None => false end
+                                   || match d_attrs d with [] => false | _ => true end)) || dimstmt) then 15
+  else if stmt && d_optional d then 8
+  else if stmt && d_parameter d then 9
+  else if dimstmt then 10
+  else if stmt && ds_inout_blank dsp && match d_intent d with Some IInOut => true | _ => false end then 11
+  else decl_region dsp (strip_decl stmt dimstmt d).
+
 Fixpoint body_region (sp : uspell) (u : aunit) (ds : list adecl) (i : nat) : nat :=
   match ds with
   | [] => 0
+  | d :: ds' => match decl_here sp u i d with 0 => body_region sp u ds' (S i) | r => r end
+  end.
+
+(* region of the declaration that declares [name] (0 when there is none) *)
+Fixpoint region_of_name (sp : uspell) (u : aunit) (ds : list adecl) (i : nat) (name : str) : nat :=
+  match ds with
+  | [] => 0
   | d :: ds' =>
-    let dsp := nth_or_last (us_decls sp) i plain_dspell in
-    let stmt := nth i (us_stmt sp) false in
-    let dimstmt := nth i (us_dimstmt sp) false && has_dims d in
-    let rname := match au_result u with Some r => r | None => au_name u end in
-    let declares_result :=
-      match au_kind u, au_rettype u with
-      | UFunction, None => existsb (fun e => seqb (e_name e) rname) (d_entities d)
-      | _, _ => false
-      end in
-    let here :=
-      if declares_result && ((stmt && (d_parameter d || d_optional d
-                                       || match d_intent d with Some _ => true | None => false end
-                                       || match d_attrs d with [] => false | _ => true end)) || dimstmt) then 15
-      else if stmt && d_optional d then 8
-      else if stmt && d_parameter d then 9
-      else if dimstmt then 10
-      else if stmt && ds_inout_blank dsp && match d_intent d with Some IInOut => true | _ => false end then 11
-      else decl_region dsp (strip_decl stmt dimstmt d) in
-    match here with 0 => body_region sp u ds' (S i) | r => r end
+    if existsb (fun e => seqb (e_name e) name) (d_entities d) then decl_here sp u i d
+    else region_of_name sp u ds' (S i) name
   end.
 
 Definition unit_region (sp : uspell) (u : aunit) : nat :=
